@@ -432,6 +432,8 @@ func c05Fixpoint(p *Prog, rp *Report) {
 		}
 	}
 	fields = append(fields, "foo (< 1.0)", "foo (> 1.0)", "foo (<1)", "foo (>1)", "foo (== 1)", "foo (!= 1)", "foo(>=1)", "foo [amd64] [i386]", "foo <a> [amd64] (>= 1)", "foo:any:amd64", "foo [amd64 !i386]")
+	// clauses that are present but empty (accepted or not, the answer has to survive rendering)
+	fields = append(fields, "foo (>= )", "foo (>=)", "foo ( = )", "foo (<< ) [amd64]", "foo ()", "foo ( )", "foo []", "foo [ ]", "foo [!]", "foo < >", "foo <> <a>", "foo (>= 1 )", "foo ( >= 1)", "foo (>= ) | bar (<< )", "${}", "${ }", "foo:any ()")
 	var problems []string
 	n, accepted := 0, 0
 	for _, f := range fields {
